@@ -309,9 +309,10 @@ func (c *converter) trackAddedIngress() {
 		if port > 0 {
 			ctx = convtypes.ResourceHATCPService
 		}
-		if port == 0 && ing.Spec.DefaultBackend != nil && c.haproxy.Hosts().FindHost(hatypes.DefaultHost) != nil {
-			// the default backend is the root path of the default host
-			c.tracker.TrackNames(convtypes.ResourceIngress, name, ctx, hatypes.DefaultHost)
+		if ing.Spec.DefaultBackend != nil && (port > 0 || c.haproxy.Hosts().FindHost(hatypes.DefaultHost) != nil) {
+			// the default backend is the root path of the default host,
+			// or the default tcp service of the port
+			c.tracker.TrackNames(convtypes.ResourceIngress, name, ctx, normalizeHostname("", port))
 		}
 		if port == 0 {
 			// hosts might be declared only in the tls attribute
@@ -535,6 +536,7 @@ func (c *converter) syncIngressTCP(source *annotations.Source, ing *networking.I
 		hostname := normalizeHostname(rawHostname, tcpServicePort)
 		tcpService, err := c.addTCPService(source, hostname, annTCP)
 		if err != nil {
+			c.trackSkippedBackend(source, ing.Namespace, ingressBackend)
 			return err
 		}
 		defer func() {
@@ -770,11 +772,12 @@ func (c *converter) trackSkippedService(source *annotations.Source, fullSvcName,
 
 func (c *converter) addTCPService(source *annotations.Source, hostname string, ann map[string]string) (*hatypes.TCPServiceHost, error) {
 	tcpPort, tcpHost := c.haproxy.TCPServices().AcquireTCPService(hostname)
+	// track the tcp service anyway, this ingress might own it after the current owner is removed
+	c.tracker.TrackNames(source.Type, source.FullName(), convtypes.ResourceHATCPService, hostname)
 	if !tcpHost.Backend.IsEmpty() {
 		tcpservice := strings.TrimPrefix(hostname, hatypes.DefaultHost)
 		return nil, fmt.Errorf("tcp service %s was already assigned to %s", tcpservice, tcpHost.Backend)
 	}
-	c.tracker.TrackNames(source.Type, source.FullName(), convtypes.ResourceHATCPService, hostname)
 	mapper, found := c.tcpsvcAnnotations[tcpPort]
 	if !found {
 		mapper = c.mapBuilder.NewMapper()
